@@ -405,3 +405,38 @@ def check_C11(tier: str, seed: int) -> int:
                      "the closed-form price monitor skips such windows, the model/implementation comparison does not",
                      "malformed timestamps (SimTime.build fails) stop the run by design and are not generated"]
     return v.finish()
+
+
+SHIFT_BUDGET = {"quick": 320, "thorough": 16000}
+
+
+@register("C20")
+def check_C20(tier: str, seed: int) -> int:
+    v = fw.Verdict("C20", tier, seed, "proof")
+    ps = fw.ProofStatus("C20", ["Properties.C20"])
+    sl = layers.shift_layer(seed, SHIFT_BUDGET[tier])
+    ok1 = use_simple_layer(v, "C20", sl, "shift", ["C20"])
+    if (not ps.ok or not ok1) and not v.violations:
+        big = layers.shift_layer(seed + 7919, SHIFT_BUDGET[tier] * 6)
+        use_simple_layer(v, "C20", big, "shift", ["C20"])
+        v.notes.append(f"escalated search: {big['cases']} further runs")
+    if not ps.ok:
+        v.broken(f"proof obligation for C20: {ps.failing_obligation()}", {"theorem_or_build": ps.failing_obligation()})
+    cov = fw.proof_coverage(ps)
+    cov["evaluations"] = sl["steps"]
+    cov["distinct_nontrivial"] = len(sl["shapes"])
+    cov["rule"] = ("function-level: shift tables (1-4 schedules: ordinary, wrapping past midnight, empty start=end, 00:00:00/23:59:59 ends, ends placed exactly on / one second "
+                   "around step starts, a later row overriding an earlier one, drivers naming a missing schedule) parsed by the real time_range_schedules_from_string; 2-7 vehicles, "
+                   "80% human-driven with random initial availability; 10-80 driver phases through the real perform_driver_state_updates with start time up to day 5 and step "
+                   "length in {1,7,60,300,900,3600,7200,43200,86399,86400,86460} (runs longer than a day); availability and shift events compared with Hive.Shift.driverUpdates "
+                   "after every step; the closed-form statement (violShift) evaluated by Lean on the implementation's trace; in 35% of the steps fresh requests are offered to the "
+                   "real built-in Dispatcher and every assignment is checked against the driver's availability; evaluations = driver phases; distinct_nontrivial = distinct "
+                   "(shift kinds, dt>=day, dt<60, #flips, dispatcher used) tuples")
+    cov["samples"] = [sl["sample"]]
+    cov["runs"] = sl["cases"]
+    cov["dispatcher_assignments_checked"] = sl["rows"]
+    v.coverage = cov
+    v.assumptions = ["a driver whose schedule id is not in the table keeps its availability (the statement speaks of drivers with a shift)",
+                     "the third clause (dispatcher) is a monitor on the real Dispatcher's output here; its theorem is Hive.C12.dispatch_available",
+                     "times of day have second resolution (HH:MM:SS, integer clock)"]
+    return v.finish()
